@@ -863,7 +863,7 @@ func init() {
 		Explain: "Layout agreement of the six path-word functions (DESIGN.md 5/C10): bits at shift 32, mask = low 32 bits, left alignment by height-length, 32-bit intrinsics on the low half, PathStr's shift and width. Every consumer of a path word must agree with NewPath on this split; numeric order = pre-order is a consequence of the layout and is not itself decided.",
 		NotDec:  []string{"the order-equals-pre-order argument (a consequence of the layout; arithmetic)", "Mask table contents"},
 		Trusted: []string{"go/ssa construction", "math/bits OnesCount32/LeadingZeros32"},
-		Quick:   []Config{cfgDefault}, Thorough: []Config{cfgDefault, cfg386},
+		Quick:   []Config{cfgDefault, cfg386}, Thorough: []Config{cfgDefault, cfg386},
 		Run: runC10,
 	})
 	register(&Prop{
@@ -871,7 +871,7 @@ func init() {
 		Explain: "E6 constant-table check (DESIGN.md 5/C05): the literal idxToPath table is read through go/types constant folding (no execution) and compared with the table generated from the path layout: all 27 constants, the key set, and the agreement of the selector constant with the loop-exit test. Heights <= 3 are answered by this table alone and every larger height ends in it.",
 		NotDec:  []string{"that the common-prefix shortcut and the bit-by-bit descent loop compute the right path for heights >= 4 (arithmetic); decided of them are only necessary conditions: loop exits (R-LOOKUPEXIT), accumulation (R-ACCUM), fill constants (R-FILL32), a non-negative row index (R-ROWINDEX), the self-consistency and per-path prefix length of the shortcut (R-PREFIX)"},
 		Trusted: []string{"go/types constant folding", "the generator in the checker (allPathsOfHeight), derived from the NewPath layout checked by C10"},
-		Quick:   []Config{cfgDefault}, Thorough: []Config{cfgDefault, cfg386},
+		Quick:   []Config{cfgDefault, cfg386}, Thorough: []Config{cfgDefault, cfg386},
 		Run: runC05,
 	})
 }
